@@ -277,6 +277,10 @@ class WcMatch(Generic[AnyStr]):
                 if self.is_aborted():  # pragma: no cover
                     break
 
+            # A kill while the folders were being checked must not let a file through
+            if self.is_aborted():  # pragma: no cover
+                break
+
             # Search files if they were found
             if files:
                 # Only search files that are in the include rules
